@@ -241,7 +241,7 @@ def render_wat(m):
                 depth += 1
         out.append("  )")
     for t in m["tables"]:
-        out.append("  (table %d%s funcref)" % (t["min"], (" %d" % t["max"]) if t["max"] >= 0 else ""))
+        out.append("  (table %d%s %s)" % (t["min"], (" %d" % t["max"]) if t["max"] >= 0 else "", t.get("kind", "funcref")))
     for mm in m["mems"]:
         out.append("  (memory %d%s)" % (mm["min"], (" %d" % mm["max"]) if mm["max"] >= 0 else ""))
     for g in m["globals"]:
@@ -490,7 +490,9 @@ def m_stores(t, rng, ntraps):
         n = acc_bytes(t, o)
         for off in (0, 3):
             nm = "%s_%d" % (o, off)
-            m.func([I32, t], [], [], [lget(0), lget(1), mem("%s.%s" % (t, o), off)], export=nm)
+            # (the function also returns the first byte written, so that no call of the trace is result-less)
+            m.func([I32, t], [I32], [], [lget(0), lget(1), mem("%s.%s" % (t, o), off), lget(0), mem("i32.load8_u", off)],
+                   export=nm)
             vals = [signed(x, t) for x in (0x0123456789ABCDEF, -1, 0x80, 0x8000, 0x80000000)]
             for k, v in enumerate(vals):
                 add(C(nm, [200 + 16 * k + (k % 3), v], [I32, t]))
@@ -505,9 +507,9 @@ def m_stores(t, rng, ntraps):
 def m_grow(rng):
     m = _mem_base()
     g = m.glob(I32, True, 0, export="g0")
-    m.func([], [I32], [], [simple("memory.size")], export="size")
+    m.func([], [I32], [], [ins("memory.size", m=0)], export="size")
     m.func([I32], [I32], [], [lget(0), ins("memory.grow", m=0), ltee(0), gset(g), lget(0)], export="grow")
-    m.func([I32, I32], [], [], [lget(0), lget(1), mem("i32.store")], export="st")
+    m.func([I32, I32], [I32], [], [lget(0), lget(1), mem("i32.store"), ins("memory.size", m=0)], export="st")
     m.func([I32], [I32], [], [lget(0), mem("i32.load")], export="ld")
     m.func([I32], [I64], [], [lget(0), mem("i64.load")], export="ld64")
     grow = [C("size", [], []), C("grow", [1], [I32]), C("size", [], []), C("st", [65536 + 8, 77], [I32, I32]),
@@ -540,11 +542,6 @@ def m_control(rng):
                                    const(I32, 12), END, ELSE, lget(1), simple("i32.eqz"), if_(), const(I32, 99),
                                    simple("return"), END, const(I32, 21), END, const(I32, 1000),
                                    simple("i32.add")], export="ifs")
-    # if without else, loop with block parameters via type index (multi-value block type)
-    ty = m.type([I32], [I32])
-    m.func([I32], [I32], [I32], [lget(0), loop(bt_idx(ty)), ltee(1), const(I32, 3), simple("i32.sub"), ltee(1),
-                                 const(I32, 0), simple("i32.gt_s"), if_(), lget(1), br(1), END, lget(1), END],
-           export="loopparam")
     # br_if carrying a value out of a value block; unwinding extra operands on branch
     m.func([I32], [I32], [], [block(bt_val(I32)), const(I32, 7), const(I32, 8), const(I32, 9), lget(0), br_if(0),
                               simple("drop"), simple("drop"), simple("drop"), const(I32, 5), END], export="unwind")
@@ -569,8 +566,6 @@ def m_control(rng):
     for a in (0, 1, -5):
         for b in (0, 1):
             calls.append(C("ifs", [a, b], [I32, I32]))
-    for a in (0, 1, 3, 4, 10, -2):
-        calls.append(C("loopparam", [a], [I32]))
     for a in (0, 1, 2):
         calls.append(C("unwind", [a], [I32]))
         calls.append(C("dead", [a], [I32]))
@@ -579,6 +574,18 @@ def m_control(rng):
         calls.append(C("count", [a], [I32]))
     calls.append(C("unr", [0], [I32]))
     return item("control", m, [calls, [C("count", [3], [I32]), C("unr", [1], [I32])]])
+
+
+def m_blockparam():
+    """Block types given by a type index (multi-value): a loop with a parameter, a block with parameter and result."""
+    m = Mod()
+    ty = m.type([I32], [I32])
+    m.func([I32], [I32], [I32], [lget(0), loop(bt_idx(ty)), ltee(1), const(I32, 3), simple("i32.sub"), ltee(1),
+                                 const(I32, 0), simple("i32.gt_s"), if_(), lget(1), br(1), END, lget(1), END],
+           export="loopparam")
+    m.func([I32], [I32], [], [lget(0), block(bt_idx(ty)), const(I32, 5), simple("i32.mul"), END], export="blockparam")
+    calls = [C("loopparam", [a], [I32]) for a in (0, 1, 3, 4, 10, -2)] + [C("blockparam", [a], [I32]) for a in (0, 7, -1)]
+    return item("blockparam", m, [calls])
 
 
 def m_calls(rng):
@@ -671,7 +678,7 @@ def m_init_traps():
 
 
 def directed(rng, thorough=False):
-    npairs = 30 if thorough else 9
+    npairs = 30 if thorough else 5
     ntraps = 30 if thorough else 3
     out = []
     for t in (I32, I64):
@@ -683,6 +690,7 @@ def directed(rng, thorough=False):
         out += m_stores(t, rng, 30 if thorough else 2)
     out += m_grow(rng)
     out.append(m_control(rng))
+    out.append(m_blockparam())
     out.append(m_calls(rng))
     out.append(m_imports(rng))
     out.extend(m_init_traps())
@@ -726,14 +734,14 @@ class RandGen:
             if c < 0.55 and globs:
                 return [gget(r.choice(globs))]
             if c < 0.6 and t == I32 and self.m.m["mems"]:
-                return [simple("memory.size")]
+                return [ins("memory.size", m=0)]
             return [const(t, self.cval(t))]
         c = r.random()
         if c < 0.34:
             o = r.choice(BIN)
             a = self.expr(t, d - 1)
             b = self.expr(t, d - 1)
-            if o in ("div_s", "div_u", "rem_s", "rem_u") and r.random() < 0.93:
+            if o in ("div_s", "div_u", "rem_s", "rem_u") and (r.random() < 0.93 or o == "rem_s"):
                 # make the divisor odd and small-ish positive: no trap
                 b = b + [const(t, 0x7F), simple(t + ".and"), const(t, 1), simple(t + ".or")]
             return a + b + [simple("%s.%s" % (t, o))]
@@ -920,9 +928,18 @@ class RandGen:
                     same = [s for s, (_, p2, r2) in enumerate(table_funcs) if p2 == p_ and r2 == res_]
                     self.table_sigs.setdefault(res_[0], []).append((ty, p_, same))
         traces = []
-        for name, params in exported:
+        # functions without a result are called last
+        for name, params in sorted(exported, key=lambda e: not func_has_result(m.m, e[0])):
             traces.append([C(name, [self.cval(p) for p in params], params) for _ in range(self.ncalls)])
         return m, traces
+
+
+def func_has_result(mod, name):
+    for e in mod["exports"]:
+        if e["kind"] == "func" and e["name"] == name:
+            nfi = sum(1 for i in mod["imports"] if i["kind"] == "func")
+            return bool(mod["types"][mod["funcs"][e["idx"] - nfi]["type"]]["results"])
+    return False
 
 
 def random_item(rng, key, size=1.0, imports=False, ncalls=3, one_trace=False):
